@@ -267,11 +267,92 @@ def w_lazy(w, cfg):
                           "config": w.config, "time": round(dt, 4)})
 
 
+class _LazyCube:
+    """dask-backed DataArray contract for PixelAlgorithms.autocorr: dims, attrs, chunks (time chunked into k blocks), chunk()."""
+
+    def __init__(self, dims, attrs, tchunks, log):
+        self.dims, self.attrs, self.tchunks, self.log = tuple(dims), attrs, tuple(tchunks), log
+
+    def pysym_getattr(self, it, st, attr):
+        from pysym.lib import native
+        if attr == "dims":
+            return self.dims
+        if attr == "attrs":
+            return self.attrs
+        if attr == "chunks":
+            return tuple(self.tchunks if d == "time" else (2,) for d in self.dims)
+        if attr == "data":
+            return ("dask-array", self)
+        if attr == "coords":
+            return {}
+        if attr == "chunk":
+            def chunk(it_, st_, spec=None, **kw):
+                spec = dict(spec or {}, **kw)
+                self.log.append(("chunk", spec))
+                if spec.get("time") in (-1, None) and "time" in spec:
+                    return _LazyCube(self.dims, self.attrs, (sum(self.tchunks),), self.log)
+                raise Unsupported(f"chunk({spec})")
+            return native(chunk)
+        raise Unsupported(f"DataArray.{attr}")
+
+
+def w_accessor(w, cfg):
+    """PixelAlgorithms.autocorr on a dask-backed cube: with time leading, the block function must see the WHOLE time axis (one chunk)
+    whatever the incoming chunking, lose axis 0 and declare float32; otherwise the gufunc path with time as core dimension."""
+    from pysym.interp import Instance
+    from pysym.lib import native
+    k, lead = cfg["tchunks"], cfg["lead"]
+    it = C.new_interp(policy="exact")
+    st = State()
+    log, calls = [], []
+    nd = z3.Int("nd")
+    dims = ("time", "y", "x") if lead else ("y", "x", "time")
+    cube = _LazyCube(dims, {"nodata": nd}, tuple([3] * k), log)
+    cls = it.get_function("hdc.algo.accessors", "PixelAlgorithms")
+    cls.link_bases(it)
+    inst = Instance(cls)
+    inst.fields["_obj"] = cube
+
+    @native
+    def map_blocks(it_, st_, func, *args, **kw):
+        calls.append(("map_blocks", getattr(func, "name", None), args, kw))
+        return ("lazy-result",)
+
+    @native
+    def apply_ufunc(it_, st_, func, *args, **kw):
+        calls.append(("apply_ufunc", getattr(func, "name", None), args, kw))
+        return ("lazy-result",)
+    it.lib_overrides["dask.array.map_blocks"] = map_blocks
+    it.lib_overrides["xarray.apply_ufunc"] = apply_ufunc
+    it.lib_overrides["dask.is_dask_collection"] = native(lambda it_, st_, x: True)
+    it.lib_overrides["xarray.DataArray"] = native(lambda it_, st_, data=None, dims=None, coords=None, **kw: ("DataArray", data, tuple(dims or ())))
+    it.lib_overrides["warnings.warn"] = native(lambda it_, st_, *a, **kk: None)
+    res = it.call_function(st, cls.methods["autocorr"], [inst])
+    w.res.encoded.update(it.encoded)
+    tag = f"autocorr[dask, time {'first' if lead else 'last'}, {k} time chunk(s)]"
+    ok = len(calls) == 1
+    if ok and lead:
+        kind, fname, args, kw = calls[0]
+        blk = args[0][1] if args and isinstance(args[0], tuple) and args[0][0] == "dask-array" else None
+        ok = (kind == "map_blocks" and fname == "autocorr_tyx" and blk is not None and len(blk.tchunks) == 1 and blk.tchunks[0] == 3 * k
+              and kw.get("drop_axis") in (0, [0], (0,)) and str(kw.get("dtype")) == "float32" and len(args) >= 2 and V.same(args[1], nd)
+              and isinstance(res, tuple) and res[0] == "DataArray" and res[2] == ("y", "x"))
+    elif ok:
+        kind, fname, args, kw = calls[0]
+        ok = (kind == "apply_ufunc" and fname == "autocorr" and args and args[0] is cube and len(args) >= 2 and V.same(args[1], nd)
+              and [list(x) for x in kw.get("input_core_dims", [])] == [["time"], []] and kw.get("dask") == "parallelized"
+              and [str(x) for x in kw.get("output_dtypes", [])] == ["float32"])
+    w.discharge(f"{tag}.block_function_sees_the_whole_time_axis", [nd >= -32768, nd <= 32767], z3.BoolVal(bool(ok)),
+                concretize=lambda m: {"accessor_dask": True, "tchunks": k, "lead": lead, "nodata": C.model_value(m, nd)})
+
+
 def worker(w, cfg):
     if cfg["kind"] == "driver":
         return w_driver(w, cfg)
     if cfg["kind"] == "lazy":
         return w_lazy(w, cfg)
+    if cfg["kind"] == "accessor":
+        return w_accessor(w, cfg)
     raise Unsupported(cfg["kind"])
 
 
@@ -289,11 +370,16 @@ def configs(tier):
                 cf.append(c)
     for n, k in ([(2, 1), (3, 1), (2, 2)] if tier == "quick" else [(2, 1), (3, 1), (4, 1), (2, 2), (3, 2), (4, 2), (5, 1)]):
         cf.append({"kind": "lazy", "threads": n, "calls": k})
+    for k in (1, 2, 3):
+        cf.append({"kind": "accessor", "tchunks": k, "lead": True})
+    cf.append({"kind": "accessor", "tchunks": 1, "lead": False})
     return cf
 
 
 def replay_candidate(chk, c):
-    if c["input"].get("lazy"):
+    if c["input"].get("accessor_dask"):
+        r = chk.replayer.call("c12_autocorr_dask", tchunks=c["input"]["tchunks"], lead=c["input"]["lead"], nodata=c["input"]["nodata"])
+    elif c["input"].get("lazy"):
         r = chk.replayer.call("c12_lazy", threads=c["input"]["threads"], schedule=c["input"]["schedule"])
     else:
         r = chk.replayer.call("c12_driver", **c["input"])
